@@ -7,6 +7,7 @@ import (
 	"github.com/mit-pdos/go-journal/addr"
 	"github.com/mit-pdos/go-journal/common"
 	"github.com/mit-pdos/go-journal/jrnl"
+	"github.com/mit-pdos/go-journal/lockmap"
 	"github.com/mit-pdos/go-journal/obj"
 	"github.com/mit-pdos/go-journal/util"
 )
@@ -21,6 +22,9 @@ const DISKNAME string = "goose_kvs.img"
 type KVS struct {
 	sz  uint64
 	log *obj.Log
+	// one lock per key: the journal needs concurrent transactions to own the
+	// objects they access, and a lock is held until the transaction is durable
+	l *lockmap.LockMap
 }
 
 type KVPair struct {
@@ -37,20 +41,50 @@ func MkKVS(d disk.Disk, sz uint64) *KVS {
 	kvs := &KVS{
 		sz:  sz,
 		log: log,
+		l:   lockmap.MkLockMap(),
 	}
 	return kvs
 }
 
+// the keys of pairs in ascending order, each once: the order their locks are taken in
+func lockOrder(pairs []KVPair) []uint64 {
+	var keys []uint64
+	for _, p := range pairs {
+		var i = uint64(0)
+		for i < uint64(len(keys)) && keys[i] < p.Key {
+			i++
+		}
+		if i < uint64(len(keys)) && keys[i] == p.Key {
+			continue
+		}
+		keys = append(keys, 0)
+		copy(keys[i+1:], keys[i:])
+		keys[i] = p.Key
+	}
+	return keys
+}
+
 func (kvs *KVS) MultiPut(pairs []KVPair) bool {
-	op := jrnl.Begin(kvs.log)
 	for _, p := range pairs {
 		if p.Key >= kvs.sz || p.Key < common.LOGSIZE {
 			panic(fmt.Errorf("out-of-bounds put at %v", p.Key))
 		}
+	}
+	// Hold the keys' locks until the transaction is on disk: a concurrent Get
+	// must not return a value that a crash can still take back.
+	keys := lockOrder(pairs)
+	for _, k := range keys {
+		kvs.l.Acquire(k)
+	}
+	op := jrnl.Begin(kvs.log)
+	for _, p := range pairs {
 		akey := addr.MkAddr(p.Key, 0)
 		op.OverWrite(akey, common.NBITBLOCK, p.Val)
 	}
 	ok := op.CommitWait(true)
+	for _, k := range keys {
+		kvs.l.Release(k)
+	}
 	return ok
 }
 
@@ -58,10 +92,12 @@ func (kvs *KVS) Get(key uint64) (*KVPair, bool) {
 	if key >= kvs.sz || key < common.LOGSIZE {
 		panic(fmt.Errorf("out-of-bounds get at %v", key))
 	}
+	kvs.l.Acquire(key)
 	op := jrnl.Begin(kvs.log)
 	akey := addr.MkAddr(key, 0)
 	data := util.CloneByteSlice(op.ReadBuf(akey, common.NBITBLOCK).Data)
 	ok := op.CommitWait(true)
+	kvs.l.Release(key)
 	return &KVPair{
 		Key: key,
 		Val: data,
